@@ -857,3 +857,47 @@ MUTANTS += [
     dict(name='read_record_availability_inverted', props=['C02', 'C08', 'C12'], rules=['REC5'], desc='read_record deserialises when go_next said no record is available',
          edits=[(RRD, '        if has_record {\n            let record = self.record()', '        if !has_record {\n            let record = self.record()')]),
 ]
+
+MUTANTS += [
+    dict(name='rollover_without_file_fsync', props=['C02', 'C03'], rules=['ROLL1'], desc='roll-over flushes and syncs the directory but no longer fdatasyncs the old file',
+         edits=[(DIR, """            self.file.flush()?;
+            self.file.get_ref().sync_data()?;
+            self.directory.sync_directory()?;
+
+            let (file_number, file) =""", """            self.file.flush()?;
+            self.directory.sync_directory()?;
+
+            let (file_number, file) =""")]),
+    dict(name='persist_without_file_fsync', props=['C03'], rules=['PS5', 'PS1'], desc='FlushAndFsync flushes and syncs the directory but not the file',
+         edits=[(DIR, """                self.file.flush()?;
+                self.file.get_ref().sync_data()?;
+                self.directory.sync_directory()
+            }""", """                self.file.flush()?;
+                self.directory.sync_directory()
+            }""")]),
+]
+
+MUTANTS += [
+    dict(name='frame_fits_test_ge', props=['C07', 'C01'], rules=['CD9'], desc='read_frame rejects frames ending exactly at the block end (> -> >=)',
+         edits=[(FRD, 'if self.cursor + header.len() > BLOCK_NUM_BYTES {', 'if self.cursor + header.len() >= BLOCK_NUM_BYTES {')]),
+    dict(name='file_full_test_ge', props=['C07', 'C01'], rules=['CD9'], desc='the block writer rolls over when a write would exactly fill the file (> -> >=)',
+         edits=[(DIR, 'if self.offset + buf.len() > FILE_NUM_BYTES {', 'if self.offset + buf.len() >= FILE_NUM_BYTES {')]),
+    dict(name='file_full_test_inverted', props=['C02', 'C07'], rules=['ROLL3'], desc='roll-over condition inverted',
+         edits=[(DIR, 'if self.offset + buf.len() > FILE_NUM_BYTES {', 'if !(self.offset + buf.len() > FILE_NUM_BYTES) {')]),
+    dict(name='write_skipped_when_nonempty', props=['C15'], rules=['BY6'], desc='the block writer returns early for NON-empty buffers',
+         edits=[(DIR, '        if buf.is_empty() {\n            return Ok(());\n        }\n        assert!', '        if !buf.is_empty() {\n            return Ok(());\n        }\n        assert!')]),
+    dict(name='frame_loop_payload_not_advanced', props=['C07', 'C12'], rules=['WR1'], desc='write_record no longer re-slices the remaining payload',
+         edits=[(RWR, '            payload = &payload[frame_payload_len..];\n            let is_last_frame = payload.is_empty();', '            let is_last_frame = payload[frame_payload_len..].is_empty();')]),
+    dict(name='frame_loop_first_flag_kept', props=['C07', 'C12'], rules=['WR1'], desc='is_first_frame is never cleared',
+         edits=[(RWR, '            is_first_frame = false;\n', '')]),
+    dict(name='emptied_queue_keeps_start', props=['C04'], rules=['PAST4'], desc='truncate_head no longer moves start_position when it empties the queue',
+         edits=[(Q, '            self.start_position = truncate_up_to_pos + 1;\n            self.concatenated_records.clear();', '            self.concatenated_records.clear();')]),
+    dict(name='reader_first_block_not_read', props=['C01'], rules=['RO1'], desc='RollingReader::open no longer reads the first block',
+         edits=[(DIR, '        file.read_exact(&mut *block)?;\n        Ok(RollingReader {', '        Ok(RollingReader {')]),
+    dict(name='header_type_byte_not_written', props=['C07', 'C01'], rules=['CD8'], desc='Header::serialize no longer writes the frame-type byte',
+         edits=[(HDR, '        dest[6] = self.frame_type.to_u8();\n', '')]),
+    dict(name='frame_payload_not_copied', props=['C07', 'C01'], rules=['CD8'], desc='write_frame no longer copies the payload into the frame buffer',
+         edits=[(FWR, '        buffer_record.copy_from_slice(payload);\n', '        let _ = buffer_record;\n')]),
+    dict(name='max_writable_condition_inverted', props=['C07'], rules=['CD2b'], desc='max_writable_frame_length subtracts on the wrong branch',
+         edits=[(FWR, 'if available_num_bytes_in_block >= HEADER_LEN {', 'if !(available_num_bytes_in_block >= HEADER_LEN) {')]),
+]
